@@ -511,10 +511,11 @@ void sim::engine_reencode(RunCtx& cx) {
     ref::Policy pol;
     pol.rng = Rng(mix_str(cx.seed, "policy"));
     unsigned strength = (unsigned)r.pick(std::vector<unsigned>{50, 200, 600, 1000});
-    if (cx.kept(0)) { pol.indef = strength; cx.tag(FAM[0]); }
-    if (cx.kept(1)) { pol.widen = strength; cx.tag(FAM[1]); }
-    if (cx.kept(2)) { pol.permute = strength; cx.tag(FAM[2]); }
-    if (cx.kept(3)) { pol.unknown = strength / 4 + 20; cx.tag(FAM[3]); }
+    bool only_dups = cx.prop == "C11";
+    if (cx.kept(0) && !only_dups) { pol.indef = strength; cx.tag(FAM[0]); }
+    if (cx.kept(1) && !only_dups) { pol.widen = strength; cx.tag(FAM[1]); }
+    if (cx.kept(2) && !only_dups) { pol.permute = strength; cx.tag(FAM[2]); }
+    if (cx.kept(3) && !only_dups) { pol.unknown = strength / 4 + 20; cx.tag(FAM[3]); }
     std::string rew;
     ref::encode_policy(root, pol, rew);
     if (cx.describe) {
@@ -559,6 +560,11 @@ void sim::engine_reencode(RunCtx& cx) {
             pre_same = c0.storage == c1.storage && c0.has_cp == c1.has_cp && c0.cp == c1.cp;
         }
         if (!pre_same) cx.violation("C08", "C08/I24/preamble-differs", "rewrite (" + fam + "): the preamble decodes differently");
+    }
+    // a reader that loads duplicated table entries wrongly breaks C11's read-side clause (indices keep denoting the same value)
+    if (n_dups && cx.viol.size() && cx.prop == "C11") {
+        sim::Violation v = cx.viol[0];
+        cx.violation("C11", "C11/I05/read-block-with-duplicated-table-entries", "a file whose block tables contain equal entries (" + std::to_string(n_dups) + " duplicated) is read differently: " + v.detail);
     }
     cx.nontrivial = pol.n_indef + pol.n_widen + pol.n_permute + pol.n_unknown + n_dups > 0;
     cx.state_key = fam + ",";
